@@ -1,6 +1,8 @@
 import MW.Inv.GReach
 import MW.Chain.World
 import MW.Inv.WorldInv
+import MW.Inv.WorldRecover
+import MW.Inv.Demo
 /-!
 # C07 — Outbound IBC transfers are tracked and recovered without loss or duplication
 -/
@@ -275,6 +277,39 @@ transitions used by the proof of `P2_tracking_world`, stated on their own) -/
 theorem refund_keeps_invariants {w : World} {g : WGhost} {p : ChainPkt} {st : PktStatus} (hr : CReach w.c) (hi : WInv w g)
     (hpm : p ∈ w.pkts) (hpend : p.state = .pending) (hst : st = .ackFailure ∨ st = .timedOut) :
     WInv (refundWorld w p st) g := refund_winv hr hi hpm hpend hst
+
+/-- **a recovery on the chain model's ledgers.**  A committed `RecoverPendingIbcTransfers` (any caller,
+any of its modes, any fault assignment): the selected packets — for a non-admin, refundable ones of one
+receiver and one denom — leave the packet table; exactly their sum leaves the contract's bank balance,
+in one new pending packet to that same receiver on the configured channel; and the new transfer is
+tracked in turn under the sequence the chain assigned (status Sent, same coin, same receiver). -/
+theorem C07_recover_world {w : World} {sender : String} {pg : Option Bool} {sel : Option (List Nat)} {rc : Option String}
+    {f : Faults} {txi : Option Nat}
+    (hc : (step w (.exec sender [] (.recover pg sel rc) f txi)).committed = true) :
+    ∃ recv packets denom total,
+      recoverReceiver w.c.config rc = .ok recv
+      ∧ selectPackets w.c recv sel (pg.getD false) = .ok packets
+      ∧ firstDenom packets = .ok denom ∧ packets.all (fun p => p.coin.denom = denom) = true
+      ∧ sumAmounts "A27" packets 0 = .ok total
+      ∧ 0 < total ∧ total ≤ w.bal w.self denom
+      ∧ (step w (.exec sender [] (.recover pg sel rc) f txi)).w.bal w.self denom = w.bal w.self denom - total
+      ∧ (step w (.exec sender [] (.recover pg sel rc) f txi)).w.pkts
+          = w.pkts ++ [ChainPkt.mk w.nextSeq w.c.config.proto.channel w.self recv ⟨denom, total⟩ .pending]
+      ∧ (step w (.exec sender [] (.recover pg sel rc) f txi)).w.c.inflight
+          = (erasePackets w.c.inflight packets).insert w.nextSeq
+              { seq := w.nextSeq, coin := ⟨denom, total⟩, receiver := recv, status := .sent } :=
+  recover_tx_resends hc
+
+-- non-vacuity of `C07_recover_world`: the sixth event of the demo history is a committed recovery of the
+-- refunded LST packet (1000) for the native-chain user; it re-sends exactly 1000 in packet 4
+section Demo
+open MW.Chain.Demo
+#guard (demoBoot.map fun w =>
+    let r5 := runW w {} (demoEvents1.take 5)
+    let r6 := runW w {} (demoEvents1.take 6)
+    (r5.1.pkts.length, r6.1.pkts.length, r6.1.pkts.getLast?.map fun p => (p.seq, p.receiver == demoNativeUser, p.coin.amount, p.state == .pending),
+     (r5.1.bal demoSelf demoX : Int) - r6.1.bal demoSelf demoX)) == some (3, 4, some (4, true, 1000, true), 1000)
+end Demo
 
 /-- non-vacuity: a refundable packet is selected, a sent one is not -/
 example : refundable "r" { seq := 1, coin := ⟨"d", 5⟩, receiver := "r", status := .timedOut } = true
